@@ -147,6 +147,11 @@ func checkC13(c *Ctx) {
 	panicName, _ := c.P.constString(pkgConfig, "Panic")
 	c.Check(at.press[panicName] == fn, "R13.4", "action[press:panic]/dispatch", pos, "actionsPress[panic] = (*Device).Panic", "actionsPress[panic] is not (*Device).Panic")
 	c.Check(at.release[panicName] == nil, "R13.4", "action[release:panic]/none", pos, "no release handler", "a release handler is registered for panic")
+	// R13.5 the channel the burst is addressed to is a valid channel (d.channel is used unmasked here)
+	if pf.err == nil {
+		ruleChannelInvariant(c, dv, pf, "R13.5")
+	}
+	c.MinCount("R13.5", 3)
 	c.MinCount("R13.1", 4)
 	c.MinCount("R13.3", 12)
 	c.DecidedClause("Panic emits exactly ControlChange(AllNotesOff) and a Note Off for each note 0..127 on the current channel, nothing else is reachable from it; its transitive write set is the MIDI-input highlight map only (trackers, counters, octave/semitone/channel/mapping untouched), so later releases go through the unchanged NoteOff (at most one redundant Note Off) and later presses see the same state")
@@ -283,7 +288,7 @@ func checkC14(c *Ctx) {
 	ruleKeyTrackerProtocol(c, dv)
 	// writers of keyTracker
 	for _, s := range c.P.writersOfField(dv.fields["keyTracker"]) {
-		name := topFunc(s.Fn).Name()
+		name := dv.ownerOf(s.Fn).Name()
 		key := "write(Device.keyTracker)@" + shortFn(s.Fn)
 		if name == "handleKEYEvent" || name == "NewDevice" {
 			c.OK("R14.1", key, c.P.Pos(s.Instr.Pos()), "allowed writer")
